@@ -1112,7 +1112,7 @@ func doneArmResult(h *ssa.Function) (bool, bool) {
 			if !isRet || len(ret.Results) != 1 {
 				continue
 			}
-			k, isK := ret.Results[0].(*ssa.Const)
+			k, isK := returnedValue(ret, 0).(*ssa.Const)
 			if !isK || k.Value == nil || k.Value.Kind() != constant.Bool {
 				ok = false
 				continue
@@ -1138,7 +1138,7 @@ func doneArmResult(h *ssa.Function) (bool, bool) {
 			if b == doneBody || doneBody.Dominates(b) {
 				continue
 			}
-			if k, isK := ret.Results[0].(*ssa.Const); !isK || k.Value == nil || constant.BoolVal(k.Value) == *doneVal {
+			if k, isK := returnedValue(ret, 0).(*ssa.Const); !isK || k.Value == nil || constant.BoolVal(k.Value) == *doneVal {
 				return false, false
 			}
 		}
